@@ -533,3 +533,32 @@ Definition check_event_rate_counts_unrepaired (rep : bool) (bsz stp : Z) (cs : l
               | Some o => Some (map r_counts o)
               | None => None
               end) got.
+
+(* added (widening): rms on an annotated stream whose first sample index is NOT a multiple of the block length n.
+   The code sets the s0 of an emitted block to data.s0 / n (float true division), which the Z division of [rms_step]
+   only describes when n divides s0.  [rms_step_x] is the same step with the s0 of the emitted block kept in INPUT
+   samples (n times the code's s0; the harness multiplies the float s0, read as an exact fraction, by n). *)
+Definition rms_step_x {A O} (rep : bool) (agg : list A -> O) (n : Z) (s : rms_st A) (c : blk A)
+  : option (rms_st A * list (blk O)) :=
+  let data := r_data s ++ [c] in
+  let samples := r_n s + zlen (dat c) in
+  if samples >=? n then
+    match concat_list data with
+    | None => None
+    | Some m =>
+      let nb := zlen (dat m) / n in
+      let ns := nb * n in
+      let d := getitem None (Some ns) None m in
+      let vals := map agg (chop (Z.to_nat nb) (Z.to_nat n) (dat d)) in
+      let result :=
+        Blk vals (two m)
+            (option_map (fun a => An (a_s0 a) (a_fsd a * n)
+                                     (if two m then a_ch a else if rep then a_ch a
+                                      else Some (repeat 0 (Z.to_nat nb)))
+                                     (a_md a)) (an d)) in
+      let r := getitem (Some ns) None None m in
+      Some (RmsSt [r] (zlen (dat r)), [result])
+    end
+  else Some (RmsSt data samples, []).
+Definition check_rms_x (rep : bool) (n : Z) h s0 sizes got : bool :=
+  eqb_outs (outs_of (run (rms_step_x rep (sagg n) n) rms_init (inputs h s0 sizes))) got.
